@@ -25,6 +25,7 @@ class FakePort:
         self.writes = []
         self.closed = False
         self.close_raises = close_raises
+        self.lines_read = []            # every line handed out by readline (a line that a write consumes is never read)
     # the exception classes a failing port raises: pyserial's own, and the OS-level ones that can come through it
     FAULTS = [serial.SerialException, serial.SerialException, OSError, serial.SerialTimeoutException, BrokenPipeError, serial.SerialException,
               IOError, TimeoutError, serial.serialutil.PortNotOpenError, ConnectionResetError]
@@ -50,6 +51,7 @@ class FakePort:
             raise self.fault("read")
         if ev is None or ev == "E":
             return b""
+        self.lines_read.append(ev[1])
         return ev[1].encode("ascii") + b"\r\n"
     def close(self):
         self.closed = True
@@ -187,7 +189,7 @@ def run_history(calls, events, close_raises=False):
     obj.record_error = spy
     try:
         for call in calls:
-            before_w = len(fp.writes); before_c = script.consumed; before_r = len(recorded)
+            before_w = len(fp.writes); before_c = script.consumed; before_r = len(recorded); before_l = len(fp.lines_read)
             raised, ret = None, None
             fp.wide_faults = call[0] not in ("connect", "reboot", "bootload", "disconnect")
             try:
@@ -201,7 +203,8 @@ def run_history(calls, events, close_raises=False):
             if raised is None and len(recorded) > before_r and obj.err is None:
                 raised = "RecordedErrorErased"          # an error was recorded during this call and is gone at its end
             out.append({"raised": raised, "ret": ret, "writes": writes, "err": err_kind(obj.err), "err_text": obj.err,
-                        "port": obj.port is not None, "name": obj.name, "consumed": script.consumed - before_c})
+                        "port": obj.port is not None, "name": obj.name, "consumed": script.consumed - before_c,
+                        "read_err": any("Err:" in l for l in fp.lines_read[before_l:])})
     finally:
         uninstall()
     return out
